@@ -5,7 +5,7 @@
 # coq/gen stay tied to /repo). Everything is removed afterwards except /tmp/vseed (a cache).
 D=$1; P=$2; T=${3:-quick}
 W=/tmp/tryseed-$$
-V=/tmp/vseed
+V=${VSEED:-/tmp/vseed}
 unset GOTOOLCHAIN GOSUMDB; export GOFLAGS=-mod=mod GOPROXY=off
 HEAD=$(git -C /verif rev-parse HEAD)
 if [ ! -d $V ]; then git -C /verif worktree add -q --detach $V $HEAD || exit 2; else git -C $V checkout -q -- . ; git -C $V checkout -q --detach $HEAD || exit 2; fi
